@@ -131,6 +131,15 @@ def second_pass(cases, impl):
             d[pos:pos + wd] = struct.pack(e + ("I" if cls == "32" else "Q"), (g["vaddr"] + skew) % 2**(8 * wd))
             out.append(Case("z%s_sk%d" % (c.id, j), ["#expect segment", "ctor plain", "load str 0 " + hx(bytes(d)), "validate"],
                             {"expect": "segment", "skew": skew}))
+            # the same with the program section at the segment's offset NOT flagged SHF_ALLOC (the statement is about
+            # the program section found at the offset, whatever its flags)
+            hidx0 = im.sections.index(host)
+            d3 = bytearray(d)
+            fpos = im.hdr["shoff"] + hidx0 * im.hdr["shentsize"] + 8
+            fw = 4 if cls == "32" else 8
+            d3[fpos:fpos + fw] = struct.pack(e + ("I" if cls == "32" else "Q"), host["flags"] & ~2)
+            out.append(Case("z%s_skn%d" % (c.id, j), ["#expect segment", "ctor plain", "load str 0 " + hx(bytes(d3)), "validate"],
+                            {"expect": "segment", "skew": skew, "host_not_alloc": True}))
             # an EMPTY program section earlier in the table, at or before the segment's offset, is not "the program section
             # found at the segment's offset": turning an unrelated earlier section into one changes neither verdict
             hidx = im.sections.index(host)
@@ -170,4 +179,5 @@ def distribution(cases):
                 d["overlap_types"][str(x[1])] = d["overlap_types"].get(str(x[1]), 0) + 1
         elif e == "segment": d["skewed_segments"] += 1
         if "empty_prog_section" in c.meta: d["with_empty_program_section"] = d.get("with_empty_program_section", 0) + 1
+        if c.meta.get("host_not_alloc"): d["skewed_with_unallocated_program_section"] = d.get("skewed_with_unallocated_program_section", 0) + 1
     return d
